@@ -497,7 +497,8 @@ func (fc *FuncCtx) execConvert(fr *Frame, st *State, x *ssa.Convert) Value {
 		sc := v.(Scalar)
 		_, signed, _ := intInfo(from)
 		if fc.model != "bv" {
-			fc.unsupported("int to float conversion needs model bv")
+			fc.u.Assumptions["integer model: the result of an int<->float conversion is an unconstrained value of the target type"] = true
+			return fc.freshValue(st, to, "i2f")
 		}
 		if signed {
 			return Scalar{"((_ to_fp 11 53) RNE " + sc.T + ")", floatSort, to}
@@ -507,7 +508,8 @@ func (fc *FuncCtx) execConvert(fr *Frame, st *State, x *ssa.Convert) Value {
 		sc := v.(Scalar)
 		w, signed, _ := intInfo(to)
 		if fc.model != "bv" {
-			fc.unsupported("float to int conversion needs model bv")
+			fc.u.Assumptions["integer model: the result of an int<->float conversion is an unconstrained value of the target type"] = true
+			return fc.freshValue(st, to, "f2i")
 		}
 		// Go: result is implementation-defined when out of range; we require in-range via obligation
 		if signed {
